@@ -1594,17 +1594,21 @@ class Parameter(_ParameterBase):
                     stacklevel=6,
                 )
 
+        # The read-only / constant guard comes before validation, which may
+        # itself have an effect (a Selector with check_on_set=False adds the
+        # value to its objects).
+        if self.readonly:
+            raise TypeError("Read-only parameter '%s' cannot be modified" % name)
+        elif (self.constant and obj is not None and obj._param__private.initialized and val is not
+              obj._param__private.values.get(self.name, _class_default(obj, self))):
+            raise TypeError("Constant parameter '%s' cannot be modified" % name)
+
         self._validate(val)
 
         if update_link is not None:
             # The link is installed / dropped only once the assignment is
             # known to be accepted: a rejected value or reference must leave
             # the existing links as they were.
-            if self.readonly:
-                raise TypeError("Read-only parameter '%s' cannot be modified" % name)
-            elif (self.constant and obj._param__private.initialized and val is not
-                  obj._param__private.values.get(self.name, _class_default(obj, self))):
-                raise TypeError("Constant parameter '%s' cannot be modified" % name)
             update_link()
 
         _old = NotImplemented
